@@ -576,7 +576,8 @@ class DestHandler:
         if len(self._pdus_to_be_sent) > 0:
             raise UnretrievedPdusToBeSent(f"{len(self._pdus_to_be_sent)} packets left to send")
         if self.states.step == TransactionStep.SENDING_EOF_ACK_PDU:
-            if (
+            # A cancelled transaction does not recover lost segments, it is completed directly.
+            if self._params.completion_disposition != CompletionDisposition.CANCELED and (
                 self._params.acked_params.lost_seg_tracker.num_lost_segments > 0
                 or self._params.acked_params.metadata_missing
             ):
